@@ -431,8 +431,7 @@ static int apply(struct dthread *t) {
                 r = ESRCH; /* not the id of a thread created under the scheduler (e.g. an unset pthread_t) */
                 G.misuse++;
             } else if (t->obj == t->ord) {
-                r = EDEADLK;
-                G.misuse++;
+                r = EDEADLK; /* as glibc: an error code for the caller to handle, not a misuse of the scheduler */
             } else if (G.th[t->obj]->detached || G.th[t->obj]->joined) {
                 r = EINVAL;
                 G.misuse++;
